@@ -96,8 +96,10 @@ class Group:
         finally:
             # the accumulators belong to this Group: the next step of an
             # enclosing Group's chain (which chains onto this scope) goes on
-            # with its own
-            del scope.maps[0][ACC_TREE], scope.maps[0][CUR_AGG]
+            # with its own (without an enclosing Group they stay: a lazy
+            # sub-spec may still be evaluated below this scope later)
+            if ACC_TREE in scope.parents:
+                del scope.maps[0][ACC_TREE], scope.maps[0][CUR_AGG]
 
     def __repr__(self):
         cn = self.__class__.__name__
